@@ -76,7 +76,9 @@ type Engine struct {
 	inInit        bool
 	trustedClauses []string // clauses of partly verified functions that are assumed, not proved
 	noPanicNoted  bool
+	packCalls     int
 	calleeLogFlag string // while a callee's postconditions are evaluated: its "logged an error" flag
+	lastSort      *sortRec
 	lastSortP     string // permutation array of the most recent sort call (ghost: vcSortPerm)
 	allocBase     string // loop allocation base of the block being executed ("" outside loops)
 	loopAllocN    map[string]int
@@ -266,6 +268,7 @@ type loopInfo struct {
 	points      []ssa.Value       // addresses of single cells written in the loop
 	fieldPoints []*ssa.FieldAddr
 	slicePoints []ssa.Value
+	objPoints   []objPoint
 }
 
 type execResult struct {
